@@ -231,7 +231,7 @@ function findMarker (content, marker) {
 module.exports = {
   id: 'C11',
   level: 'exploration',
-  rule: 'the repository\'s real main.js / js/source-map / js/stack-trace are loaded with the native module replaced by a shim that calls rwharness; generated CommonJS modules with throw sites on known lines (throw statement, TypeError from a null receiver inside an injected sequence on a two-line statement, a hook that throws on a marker, an error inside an eval-created frame, a nested closure, top-level code, an error whose multi-line message contains a line that reads like a frame), placed under plain, nested, non-ASCII and hostile directory names (blanks and brackets, `$&` / `$\' ` / `$$`, regex metacharacters, node_modules/@scope) with various extensions, are rewritten through the caching Rewriter, compiled under the original file name with Module.prototype._compile and run; each error\'s stack is read through both code paths of getPrepareStackTrace (wrapping a user handler; formatting V8\'s string) and the frame of the rewritten file must carry the original path and a line inside the statement\'s span (with a chained inline map: orig.ts and line+100); frames of other files unchanged; nothing throws. On-disk lookups: getOriginalPathAndLineFromSourceMap over temporary files with inline / external / missing / invalid / absent maps, compared with an independent decoder where the lookup conventions agree (a token on the same line at or before the column). Histories: random sequences of rewrites (modified v1/v2, not modified, syntax error) over 5 file names, after each of which a lookup for every file must use the map of its most recent rewrite (positions unchanged when that rewrite was not modified). distinct_nontrivial = distinct (module, site, path) stacks plus history lookups decided.',
+  rule: 'the repository\'s real main.js / js/source-map / js/stack-trace are loaded with the native module replaced by a shim that calls rwharness; generated CommonJS modules with throw sites on known lines (throw statement, TypeError from a null receiver inside an injected sequence on a two-line statement, a hook that throws on a marker, an error inside an eval-created frame, a nested closure, top-level code, an error whose multi-line message contains a line that reads like a frame), placed under plain, nested, non-ASCII and hostile directory names (blanks and brackets, `$&` / `$\' ` / `$$`, regex metacharacters, node_modules/@scope) with various extensions, are rewritten through the caching Rewriter, compiled under the original file name with Module.prototype._compile and run; each error\'s stack is read through both code paths of getPrepareStackTrace (wrapping a user handler; formatting V8\'s string) and the frame of the rewritten file must carry the original path and a line inside the statement\'s span (with a chained inline map: orig.ts and line+100); frames of other files unchanged; nothing throws. Real-world files: corpus files rewritten through the caching Rewriter, then 60 random positions of each rewritten text looked up through the package and compared with an independent decoder of the embedded map. On-disk lookups: getOriginalPathAndLineFromSourceMap over temporary files with inline / external / missing / invalid / absent maps, compared with an independent decoder where the lookup conventions agree (a token on the same line at or before the column). Histories: random sequences of rewrites (modified v1/v2, not modified, syntax error) over 5 file names, after each of which a lookup for every file must use the map of its most recent rewrite (positions unchanged when that rewrite was not modified). distinct_nontrivial = distinct (module, site, path) stacks plus history lookups decided.',
   assumptions: ['eval frames are only checked through the string-formatting path (the wrapping path has no file name for them)', 'after a failed (syntax error) rewrite nothing is asserted about the file until it is rewritten again', 'lru-cache is a 12-line stand-in with get/set'],
   plan (ctx) {
     const shards = []
@@ -239,6 +239,10 @@ module.exports = {
     for (let k = 0; k < nMods / 8; k++) shards.push({ kind: 'sites', count: 8, stream: k })
     const nHist = ctx.tier === 'thorough' ? 2400 : 256
     for (let k = 0; k < nHist / 8; k++) shards.push({ kind: 'histories', count: 8, stream: 1000 + k })
+    // real-world files: every position of the rewritten text must translate as an independent decoder of the embedded map says
+    const files = require('../lib/corpus').list()
+    const pick = ctx.tier === 'thorough' ? files : new Rng(ctx.seed, 'c11corpus').sample(files, 96)
+    for (let k = 0; k < pick.length; k += 8) shards.push({ kind: 'corpus', items: pick.slice(k, k + 8).map(f => f.name), stream: 3000 + k })
     const nDisk = ctx.tier === 'thorough' ? 64 : 16
     for (let k = 0; k < nDisk; k++) shards.push({ kind: 'disk', stream: 2000 + k })
     return shards
@@ -269,6 +273,37 @@ module.exports = {
         for (const k of Object.keys(res)) rep.distinct.push(hashStr(mod.code + k))
         bump('stacks_read', counters.stacks); bump('frames_of_rewritten_files_checked', counters.frames); bump(chain ? 'modules_chained' : 'modules_plain')
         if (rep.samples.length < 1) rep.samples.push({ file, chained: chain, input: clip(mod.code, 900), sites: mod.sites })
+      }
+      return rep
+    }
+    if (spec.kind === 'corpus') {
+      const corpus = require('../lib/corpus')
+      const pkg = P.loadPackage()
+      const rw = new pkg.Rewriter(CFG)
+      for (const name of spec.items) {
+        const file = `/srv/c11corpus/${rng.pick(DIRS)}/${name}`
+        let resp
+        try { resp = rw.rewrite(corpus.read(name), file) } catch (e) { bump('corpus_rewrite_errors'); continue }
+        if (!resp.metrics || resp.metrics.status !== 'modified') { bump('corpus_not_modified'); continue }
+        let t, toks
+        try { t = S.splitTrailer(resp.content); toks = S.decodeMappings(t.map).filter(x => x.src !== undefined).sort((x, y) => x.genLine - y.genLine || x.genCol - y.genCol) } catch (e) { rep.violations.push({ sig: 'corpus:trailer-undecodable', what: `embedded map of ${name} cannot be decoded: ${e.message}`, witness: { name } }); continue }
+        const lines = resp.content.split('\n')
+        bump('corpus_files')
+        for (let q = 0; q < 60; q++) {
+          const line = rng.range(1, lines.length)
+          const col = rng.range(1, Math.max(1, lines[line - 1].length + 1))
+          let got
+          try { got = lookup(pkg, file, line, col) } catch (e) { rep.violations.push({ sig: 'corpus:lookup-threw', what: `lookup threw for ${name} ${line}:${col}: ${e.message}`, witness: { name, line, col } }); continue }
+          rep.evaluations++
+          rep.distinct.push(hashStr(name + ':' + line + ':' + col))
+          bump('corpus_lookups')
+          const tok = S.lookupGlobal(toks, line - 1, col - 1)
+          const exp = tok ? { file: path.join(path.dirname(file), t.map.sources[tok.src]), line: tok.srcLine + 1 } : { file, line }
+          if (got.file !== exp.file || got.line !== exp.line) {
+            rep.violations.push({ sig: 'corpus:wrong-translation', what: `${name}: rewritten position ${line}:${col} translated to ${got.file}:${got.line}, an independent decoder of the embedded map says ${exp.file}:${exp.line}`, witness: { name, file, line, col } })
+            break
+          }
+        }
       }
       return rep
     }
